@@ -30,6 +30,17 @@ def load_json(p, default):
         return default
 
 
+# Rules that count template INSTANTIATIONS (resolved CFGs of the driver TUs): which instantiations exist depends on how the library
+# spells its internal calls (isequal(a,b) vs isequal(b,a) instantiates a different specialisation), so a behaviour-preserving edit can
+# merge or split a few of them. Their floor tolerates a quarter of the frozen count; a vanished anchor (zero or a handful) still fails.
+INSTANTIATION_RULES = ("R-EQSHAPE", "R-MAYBE", "R-DIV", "R-EVAL", "R-OWN", "R-SIMDRANGE", "R-SIMDID", "R-SIMDOP", "R-UFOP.guarded")
+
+def _floor_min(rule, floor):
+    if any(rule == r or rule.startswith(r + ".") for r in INSTANTIATION_RULES):
+        return max(1, int(floor * 0.75))
+    return floor
+
+
 def known_match(kf, prop, engine, item):
     """item: dict with id/func/rule/construct...; a finding entry matches by property, engine and
     fnmatch on each key of entry['match'] against str(item[key])."""
@@ -196,7 +207,7 @@ def main():
             floor = floors.get(fkey)
             if floor is None and not args.freeze_floors:
                 broken.append("E2 rule %s: no floor recorded for %s/%s" % (rule, prop, tier))
-            elif floor is not None and n < floor:
+            elif floor is not None and n < _floor_min(rule, floor):
                 broken.append("E2 rule %s: %d instances < floor %d (anchor vanished?)" % (rule, n, floor))
         for item in r2["findings"]:
             f = known_match(kf, prop, "E2", item)
